@@ -33,7 +33,7 @@ def variants():
     prof1 = (u * 1.5, v, K, K, K)
     rng = np.random.default_rng(7)
     return dict(
-        z=[z0, z1], profiles=[prof0, prof1], domain=[(60.0, 48.0), (72.0, 48.0)], modes=[(6, 6), (4, 6)],
+        z=[z0, z1], profiles=[prof0, prof1], domain=[(60.0, 48.0), (72.0, 48.0)], modes=[(6, 6), (4, 6), (8, 4), (6, 4), (8, 8)],
         measPt=[(20.0, 16.0), (30.0, 16.0)], halo=[10.0, 20.0, 60.0, 72.0, 0.0], precision=["double", "single"],
         levels=[2, [2], [1, 3], 3], shape=[(6, 6), (8, 6)], analytic=[True, False], bg=[0.0, 1.5],
         q=[0, 1],
@@ -340,6 +340,10 @@ def o_cross_process(case):
     return None
 
 
+def seed_mix(rng):
+    return int(rng.integers(3))
+
+
 def run(rng, tier, deep):
     st = new_stats()
     V = variants()
@@ -361,6 +365,23 @@ def run(rng, tier, deep):
         r["halo"] = k
         hists.append([("R", r), ("R", rn), ("R", r), ("R", rn), ("R", rn)])
         hists.append([("R", rn), ("R", r), ("R", rn), ("R", r), ("R", r)])
+    # mode counts around the clamp (above / at / below the padded size on one or both axes) under every halo
+    for hk in range(len(V["halo"])):
+        for m1 in range(len(V["modes"])):
+            for m2 in range(m1 + 1, len(V["modes"])):
+                if tier == "quick" and not deep and (hk + m1 + m2 + seed_mix(rng)) % 3:
+                    continue
+                r1, r2 = base_req(), base_req()
+                r1["halo"] = r2["halo"] = hk
+                r1["modes"], r2["modes"] = m1, m2
+                hists.append([("R", r1), ("R", r2), ("R", r1), ("R", r2)])
+    # arbitrary request pairs that differ in exactly one argument (not only variations of the base request)
+    for _ in range(budget(tier, deep, 12, 100)):
+        r1 = {f: int(rng.integers(len(V[f]))) for f in FLD}
+        r2 = dict(r1)
+        f = FLD[int(rng.integers(len(FLD)))]
+        r2[f] = int((r1[f] + 1 + rng.integers(len(V[f]) - 1)) % len(V[f]))
+        hists.append([("R", r1), ("R", r2), ("R", r1), ("R", r2), ("X",), ("R", r2), ("R", r1)])
     lines = [model_line(h, V, bits) for h in hists]
     outs = run_driver(lines)
     for h, l, o in zip(hists, lines, outs):
